@@ -719,15 +719,72 @@ def encode(env, m, o, top=True):
     if o.bad_later and not o.bad_done and rnd is not None:
         desc = env.msgs[m.d]
         cands = sorted(set(fid for fid, _ in recs if fid > 0 and desc.by_id[fid].type == 'MESSAGE' and desc.by_id[fid].label != 'REP'))
-        if cands and (top or rnd.random() < 0.5):
+        # a oneof whose selected member is on the wire: one more member of the same oneof (another one, or the same) that is
+        # rejected AFTER the selected one has been released -- wrong wire type, or a sub-message that does not parse
+        ocands = []
+        for fid in sorted(set(fid for fid, _ in recs if fid > 0 and desc.by_id[fid].group() is not None)):
+            g = desc.by_id[fid].group()
+            for f2 in desc.fields:
+                if f2.group() == g and f2.type != 'BOOL':
+                    ocands.append(f2)
+        if (cands or ocands) and (top or rnd.random() < 0.5):
             o.bad_done = True
-            # a truncated key: the nested parse fails after the earlier occurrence was parsed and stored
-            recs2.append(key(rnd.choice(cands), 2) + rnd.choice([[1, 0x80], [2, 0x08, 0x80], [1, 0x07]]))
+            if ocands and (not cands or rnd.random() < 0.6):
+                f2 = rnd.choice(ocands)
+                if f2.type == 'MESSAGE' and rnd.random() < 0.5:
+                    recs2.append(key(f2.id, 2) + rnd.choice([[1, 0x80], [2, 0x08, 0x80]]))
+                elif WT[f2.type] == 2:
+                    recs2.append(rnd.choice([key(f2.id, 0) + [1], key(f2.id, 5) + [1, 0, 0, 0]]))   # a varint / four bytes where a length is due
+                else:
+                    recs2.append(key(f2.id, 2) + [1, 0])
+            else:
+                # a truncated key: the nested parse fails after the earlier occurrence was parsed and stored
+                recs2.append(key(rnd.choice(cands), 2) + rnd.choice([[1, 0x80], [2, 0x08, 0x80], [1, 0x07]]))
     return [b for r in recs2 for b in r]
 
 
 CANON = Opts()
 CANON_NOSPLIT = CANON
+
+
+def oneof_replacement_failures(rnd, env, cap=16):
+    """inputs (d, bytes): a complete message of type d, then a member A of one of its oneofs with a valid value, then a member B
+    of the same oneof (every ordered pair, B = A included, at most cap per schema) that is rejected after A has been released:
+    wrong wire type, or a sub-message that does not parse"""
+    out = []
+    pairs = []
+    for desc in env.msgs:
+        groups = {}
+        for f in desc.fields:
+            if f.group() is not None:
+                groups.setdefault(f.group(), []).append(f)
+        for g, ms in groups.items():
+            for a in ms:
+                for b in ms:
+                    if b.type != 'BOOL':
+                        pairs.append((desc, a, b))
+    rnd.shuffle(pairs)
+    # heap-owning first members first: those are the ones whose release can go wrong
+    pairs.sort(key=lambda p: 0 if p[1].type in ('BYTES', 'STRING', 'MESSAGE') else 1)
+    for desc, a, b in pairs[:cap]:
+        ca = None
+        for _ in range(6):
+            ca = gen_cell(rnd, env, a, 9, canon=True)
+            if not (a.type == 'MESSAGE' and ca[1] is None) and not (a.type == 'BYTES' and ca[1] == 0):
+                break
+        if ca is None or (a.type == 'MESSAGE' and ca[1] is None):
+            continue
+        m = gen_msg(rnd, env, desc.idx, canon=True)
+        bs = encode(env, m, CANON)
+        bs += key(a.id, WT[a.type]) + cell_payload(env, a, ca, CANON)
+        if b.type == 'MESSAGE' and rnd.random() < 0.5:
+            bs += key(b.id, 2) + rnd.choice([[1, 0x80], [2, 0x08, 0x80]])
+        elif WT[b.type] == 2:
+            bs += rnd.choice([key(b.id, 0) + [1], key(b.id, 5) + [1, 0, 0, 0]])
+        else:
+            bs += key(b.id, 2) + [1, 0]
+        out.append((desc.idx, bs))
+    return out
 
 
 def older_schema(rnd, env, keep=0.6):
